@@ -384,7 +384,7 @@ def main(tier):
                        "'never neither' judged as bounded progress: at quiescence and again "
                        "after a 15 virtual-minute horizon"]
     exe = build.ensure_world("asan")
-    nfirst, nrand = (4, 1800) if tier == "quick" else (6, 40000)
+    nfirst, nrand = (4, 5000) if tier == "quick" else (6, 40000)
     jobs = []
     enum = [(s, a) for s in STYLES for a in itertools.product((0, 1, 2), repeat=nfirst)]
     chunk = 12
